@@ -158,6 +158,55 @@ CHECKS = {
        "object's allOf and keeping its optional flag, and Example() shows exactly that key set in order.",
   note="The OpenAPI property listing is outside the claim for now; deeper DAGs than the listed shapes are outside.",
   ref="DESIGN.md §4 C07"),
+
+ "C04": dict(
+  text="Bounded symbolic model checking of GetAST() against a schema MODEL printed to text: an integer with 0-3 rules from {min, max, "
+       "nullable} in eleven orders (one name optionally quoted), rules only / note only / rules + note, inline or multi-line; objects "
+       "and arrays whose members are an annotated number, a multi-line annotated string, a reference, a type choice and a key "
+       "shortcut; nested `or` lists with a rule set and a type name, `enum` lists of five kinds, and 19-20 digit maxLength/maxItems "
+       "values. Digits, characters and notes (0-2 bytes) are symbolic. The real AST is walked in package: one node per element in "
+       "source order with kind, key, shortcut flag, decoded value, trimmed note and exactly the written rules - names, order and "
+       "values including nested Items/Properties.",
+  note="Rules the loader derives from a shortcut (type / or with Source=Generated) are not 'written' rules and are ignored; "
+       "json.Marshal of the AST is outside; only schemas that pass Check() are considered.",
+  ref="DESIGN.md §4 C04"),
+ "C08": dict(
+  text="Bounded symbolic model checking, claimed in part (struct level, scalars): for scalar schemas with min/max (optionally exclusive) "
+       "over signed decimals, minLength/maxLength, two-entry enums, and integer+nullable, the real jsoac.newNode is executed on "
+       "the real AST and a JSON-Schema evaluator written in the harness interprets the resulting Go struct (type, nullable, enum, "
+       "minimum/maximum with OpenAPI 3.0 boolean exclusivity, minLength/maxLength; numeric comparisons with exact integers): when "
+       "Check() accepts, Example() is a valid instance, and so is every other value of the same literal kind that the same rules accept.",
+  note="Outside the claim: the JSON TEXT of the conversion (encoding/json reflection is not executed: well-formedness, key escaping, "
+       "omitempty), objects/arrays/or/$ref conversion, pattern, format, multipleOf.",
+  ref="DESIGN.md §4 C08"),
+ "C09": dict(
+  text="Bounded symbolic model checking of determinism: a project of three user types, each broken or not depending on a symbolic digit "
+       "(constraint violation, string length violation, a rule-set (unnamed) type), is processed (a) under the insertion map order and "
+       "under 3/5 other modelled iteration orders, (b) under all six AddType permutations, (c) twice on fresh objects - every %p "
+       "yields fresh symbolic address bytes, so any observable that mentions an address differs between the runs - and the "
+       "observables (error code, message, index, offending type; or example, used types, Len) are asserted equal, i.e. the solver "
+       "decides the equality for all digit values; plus enum rules with two entries under two map orders. GuessSchemaType under "
+       "map orders is part of C20.",
+  note="Map order and heap addresses are engine parameters / symbolic models, not Go's real randomisation; native confirmation of such "
+       "a counterexample repeats the case up to 200 times. OpenAPI text is outside.",
+  ref="DESIGN.md §4 C09"),
+ "C10": dict(
+  text="Bounded symbolic model checking of result stability and history independence, claimed in part: sequences of 2/3 operations "
+       "(Example, UsedUserTypes, Check, Len) over five schema texts with symbolic digits/letters - three valid, one failing in the "
+       "loader, one failing in the scanner - sharing objects across steps, under the LIFO model of sync.Pool (Get returns the most "
+       "recent Put): every returned byte slice / list still equals the snapshot taken when it was returned, and every result equals "
+       "the one obtained with the 'always New' pool model on fresh objects (what a fresh process computes).",
+  note="sync.Pool is modelled (LIFO / fresh), not executed; OpenAPI marshalers are outside (reflection).",
+  ref="DESIGN.md §4 C10"),
+ "C14": dict(
+  text="Bounded symbolic model checking of layout independence: four schema models (annotated number, string with an `or` rule, object "
+       "with annotated members and a reference, array with a note and a type choice; digits, letters and notes symbolic) are printed "
+       "canonically and with ONE (quick) or TWO (thorough) layout dimensions changed - LF/CRLF/CR, indentation, blanks after colons, "
+       "blanks before annotations, // vs /* */, quoted vs bare rule names, # line comments and ### block comments, leading and "
+       "trailing blank lines - with @u registered or not: same verdict and error code; when accepted the same AST, example and "
+       "used-type list.",
+  note="The repository's test corpus under layout transforms is not replayed; OpenAPI output is outside.",
+  ref="DESIGN.md §4 C14"),
 }
 
 NOT_APPLICABLE = {
